@@ -52,6 +52,29 @@ func c02Gen(rng *rand.Rand, tier string) []Case {
 		}
 		out = append(out, Case{ID: fmt.Sprintf("a%d", i), Ops: ops, Nontrivial: true, Tags: []string{"claim-far-ahead"}})
 	}
+	// mid-leave histories: a member has announced its leave (leaving); LocalState reads, push/pull to a fresh
+	// peer, then memberlist reports it gone (worded dead or left)
+	nm := 40
+	if tier == "thorough" {
+		nm = 1500
+	}
+	for i := 0; i < nm; i++ {
+		x := hexs([]string{"a", "b", "node d"}[rng.Intn(3)])
+		t := 1 + rng.Intn(6)
+		ops := []string{"nj " + x}
+		if rng.Intn(3) == 0 {
+			ops = append(ops, fmt.Sprintf("mj %s %d", x, rng.Intn(t+1)))
+		}
+		ops = append(ops, fmt.Sprintf("ml %s %d 0", x, t))
+		for j, k := 0, 1+rng.Intn(3); j < k; j++ {
+			ops = append(ops, []string{"ls", "s2 " + x, "ls", fmt.Sprintf("mj %s %d", x, rng.Intn(t+1))}[rng.Intn(4)])
+		}
+		ops = append(ops, fmt.Sprintf("nl %s %d %s", x, rng.Intn(4), []string{"d", "l"}[rng.Intn(2)]))
+		if rng.Intn(2) == 0 {
+			ops = append(ops, "ls", "s2 "+x)
+		}
+		out = append(out, Case{ID: fmt.Sprintf("m%d", i), Ops: ops, Nontrivial: true, Tags: []string{"mid-leave"}})
+	}
 	for i := 0; i < nb; i++ {
 		x := hexs([]string{"a", "b", "node d"}[rng.Intn(3)])
 		var ops []string
@@ -126,7 +149,7 @@ func c02Gen(rng *rand.Rand, tier string) []Case {
 func init() {
 	register(&Prop{
 		ID: "C02",
-		Rule: "one real serf node per case; claims about the running local node far ahead of its clock (100-1000, random 63-bit; by gossip ± prune or as a left entry of a merge); buffered-intent histories (2-4 join/leave intents, by gossip or merge, times 3/5/5/7 in every order with duplicates, about a member not listed yet, then NotifyJoin, sometimes a reaper tick before and a crash + merge after); random histories of memberlist notifications, join/leave intents with small colliding Lamport times (plus 2^64-2, 2^64-1, random 63-bit), push/pull merges with left lists, force-leaves, reaper ticks, LocalState reads; " +
+		Rule: "one real serf node per case; mid-leave histories (a member is leaving: LocalState reads, push/pull of the node's state to a fresh real peer, then memberlist's death notification worded dead or left); claims about the running local node far ahead of its clock (100-1000, random 63-bit; by gossip ± prune or as a left entry of a merge); buffered-intent histories (2-4 join/leave intents, by gossip or merge, times 3/5/5/7 in every order with duplicates, about a member not listed yet, then NotifyJoin, sometimes a reaper tick before and a crash + merge after); random histories of memberlist notifications, join/leave intents with small colliding Lamport times (plus 2^64-2, 2^64-1, random 63-bit), push/pull merges with left lists, force-leaves, reaper ticks, LocalState reads; " +
 			"non-trivial = an intent delivered out of Lamport order or for a not-yet-known member, and at least one merge; distinct = distinct op sequence",
 		Gen:  c02Gen,
 		Exec: nodeExec,
